@@ -122,7 +122,9 @@ Step ==
                /\ excused' = IF e.code # "none" THEN excused \cup {t} ELSE excused
                /\ UNCHANGED <<ann, handon, unsched, cann, collected, accepted, named, toreg, pexit, killed, target, spawned, errs>>
           [] e.ev = "Member" /\ e.who \in {"control", "timeout", "intake"} ->
-               /\ excused' = IF ~e.res THEN excused \cup {t} ELSE excused
+               \* (not in the task table is an excuse only if the watcher has collected the task - a
+               \*  task which is not registered YET is not excused)
+               /\ excused' = IF ~e.res /\ collected[t] # {} THEN excused \cup {t} ELSE excused
                /\ UNCHANGED <<ann, handon, unsched, cann, collected, accepted, named, toreg, pexit, killed, target, spawned, errs>>
           [] e.ev = "GetProc" /\ e.who \in {"control", "timeout", "intake"} ->
                /\ excused' = IF ~e.present /\ t \in spawned THEN excused \cup {t} ELSE excused
